@@ -893,7 +893,7 @@ impl CodeGen {
                         self.emit_mul_r64_rm64(reg, RegMem::Reg(Reg::scr0()));
                     } else {
                         self.emit_load::<C>(idx0, Reg::scr0());
-                        self.emit_load::<C>(idx0, Reg::scr1());
+                        self.emit_load::<C>(idx1, Reg::scr1());
                         self.emit_mul_r64_rm64(Reg::scr0(), RegMem::Reg(Reg::scr1()));
                         self.emit_mov_rm64_r64(self.tmp_param(tmp), Reg::scr0());
                     }
